@@ -130,7 +130,18 @@ func matchFrom(d []any, cur int, v string) int {
 }
 
 // runsPortsConservation: mode strp. Whatever the order of outer and inner calls, an inner stream only
-// hands out items that the source delivered and that no inner stream has handed out before, in order.
+// hands out items that the source delivered and that no inner stream has handed out before, in order
+// (c07-runs-items-st-ports); and a run starts where a run of what the source delivered starts
+// (c07-runs-not-maximal-st-ports, fix9b): the first item handed out by the inner stream that the last
+// successful outer Next returned - nothing else has been asked of the outer stream since, the inner stream
+// was not closed - is the head of that run. It is one of the delivered items no inner stream has handed out
+// yet (the clause above); if *every* such item of that value directly follows a delivered item with which
+// `same` holds, then wherever the run was cut, the cut lies inside a run of the delivered sequence: the two
+// neighbours belong to one run of xslices.Runs / iterator.Runs of the same items ("the iterator, stream and
+// xslices versions of the same operation agree"), and of the stream version whenever no call fails.
+// How the consumer got there - inner streams left undrained (the outer Next then skips the rest, which is
+// what the implementation documents by doing it), outer calls that failed softly and were repeated - does
+// not enter: only what the source delivered does.
 func runsPortsConservation(c caseInfo, outs []string, st *implState) []fail {
 	tap := st.lastTap()
 	if tap == nil {
@@ -141,7 +152,11 @@ func runsPortsConservation(c caseInfo, outs []string, st *implState) []fail {
 	params["who"] = "runs"
 	params["rel"] = c.rel
 	trans := transientNames(toks)
+	same := relOf(c.rel)
 	cur := 0
+	curRun, headSeen := 0, false // the run the last successful outer Next returned (0: none / abandoned / closed)
+	curDrained := false          // ... has reported its end
+	maxOff := false              // an undrained inner stream was closed: where the next run starts is not specified (DESIGN 8a; not generated)
 	for i, o := range c.ops {
 		f := strings.Fields(o)
 		if f[0] == "oclose" || c.nbuild+i >= len(st.tapAt) {
@@ -149,6 +164,12 @@ func runsPortsConservation(c caseInfo, outs []string, st *implState) []fail {
 		}
 		res, _ := splitOut(outs[i])
 		if f[0] == "iclose" {
+			if len(f) > 1 && atoi(f[1]) == curRun && curRun != 0 {
+				if !curDrained {
+					maxOff = true
+				}
+				curRun = 0
+			}
 			continue
 		}
 		if f[0] != "onext" && f[0] != "inext" {
@@ -156,6 +177,13 @@ func runsPortsConservation(c caseInfo, outs []string, st *implState) []fail {
 		}
 		live := f[len(f)-1] != "0"
 		d := tap.got[:st.tapAt[c.nbuild+i].n]
+		if f[0] == "onext" {
+			// the outer stream was asked to move on (even by a call that fails): the old run is abandoned
+			curRun, headSeen, curDrained = 0, false, false
+			if strings.HasPrefix(res, "run ") {
+				curRun = atoi(strings.TrimPrefix(res, "run "))
+			}
+		}
 		switch {
 		case f[0] == "inext" && strings.HasPrefix(res, "item "):
 			v := strings.TrimPrefix(res, "item ")
@@ -165,7 +193,23 @@ func runsPortsConservation(c caseInfo, outs []string, st *implState) []fail {
 					fmt.Sprintf("%s (same=%s): op %d %q hands out item %s, which is not among the items the source delivered and no run has handed out yet (%s)",
 						strings.Join(toks, " "), c.rel, i, o, v, showDelivered(d, cur))}}
 			}
+			if len(f) > 1 && atoi(f[1]) == curRun && curRun != 0 && !headSeen && !maxOff {
+				headSeen = true
+				inside := true // every candidate position lies inside a run of the delivered sequence
+				for k := j; k < len(d) && inside; k++ {
+					if showV(d[k]) == v && (k == 0 || !same(d[k-1], d[k])) {
+						inside = false
+					}
+				}
+				if inside {
+					return []fail{{"c07-runs-not-maximal-st-ports", params,
+						fmt.Sprintf("%s (same=%s): op %d %q: run %d starts with item %s, but every delivered item %s that no run has handed out yet directly follows an item it is `same` with (%s): a run of the source was split in two",
+							strings.Join(toks, " "), c.rel, i, o, curRun, v, v, showDelivered(d, cur))}}
+				}
+			}
 			cur = j + 1
+		case res == "end" && f[0] == "inext" && len(f) > 1 && atoi(f[1]) == curRun:
+			curDrained = true
 		case strings.HasPrefix(res, "item "), strings.HasPrefix(res, "run "), res == "end", softAnswer(res, live, trans):
 		default:
 			return nil
